@@ -23,7 +23,7 @@ def decExp (r2 : In) : In × In := match r2 with
         | 45 :: r => ([45], r)
         | r => (([] : In), r)
       match r with
-      | c :: _ => if isDigit c then let (d, t) := span isDigit r; ([101] ++ sg ++ d, t) else (([] : In), r2)
+      | c :: _ => if isDigit c then let (d, t) := digitsU r; ([101] ++ sg ++ d, t) else (([] : In), r2)
       | [] => (([] : In), r2)
     else (([] : In), r2)
   | [] => (([] : In), r2)
